@@ -11,7 +11,7 @@ from props import c01
 PROP = "C11"
 LEAN_MODULES = ["Props.C11"]
 RULE = (
-    "case = (1-6 fields of mixed kinds, value list, delimiter in ; , | tab :: ;; , blank padding per token, a "
+    "case = (1-6 fields of mixed kinds, value list incl. runs of leading / trailing missing values, delimiter in ; , | tab :: ;; and delimiters with blanks such as ', ' '; ' ' | ', blank padding per token, a "
     "sequence of 1-6 further lines with short / exact / long token counts). One real Line(fields, delimiter=d): write "
     "the values; read the written line; read the same tokens with extra blanks around them; then read the further "
     "lines one after the other through the SAME line object. Compared with the model and judged by Spec.C11.holds "
@@ -27,7 +27,7 @@ ASSUMPTIONS = [
 ] + c01.ASSUMPTIONS
 TRUSTED = c01.TRUSTED
 EXHAUSTIVE = {"quick": False, "thorough": False}
-DELIMS = [";", ",", "|", "\t", "::", ";;", ";"]
+DELIMS = [";", ",", "|", "\t", "::", ";;", ";", ", ", "; ", " | ", " :", "\t;"]
 
 
 def pad_line(written, d, pads):
@@ -185,6 +185,13 @@ def random_case(rng):
             fd["sep"] = codec.enc_str("." if "." not in d else ",")
         fields.append(fd)
         values.append(v)
+    if rng.random() < 0.3:
+        # trailing / leading missing values: the line then ends (starts) with the delimiter itself
+        k = rng.randrange(1, n + 1)
+        if rng.random() < 0.7:
+            values[n - k :] = [None] * k
+        else:
+            values[:k] = [None] * k
     pads = [[rng.choice([0, 0, 1, 3]), rng.choice([0, 0, 2])] for _ in range(n)]
     lines = []
     for _ in range(rng.randrange(1, 7)):
